@@ -246,7 +246,8 @@ static void explore_l1(Result& R, const Seed& seed, int depth) {
 }
 
 // ------------------------------------------------------------------------------------------------ L2: pass level (H5 inside)
-struct InPass { bool active = false; cell* c = nullptr; Snap before; long ops = 0; long max_ops = 0; std::string err; std::vector<Op> hist_prefix; double lmin2, lmax2; bool stale = false;
+struct FaceKey { bool used; unsigned a, b, c; };
+struct InPass { bool active = false; cell* c = nullptr; Snap before; std::vector<FaceKey> faces_before; long ops = 0; long max_ops = 0; std::string err; std::vector<Op> hist_prefix; double lmin2, lmax2; bool stale = false;
                 long splits = 0, merges = 0, swaps = 0; };
 static InPass g_pass;
 struct op_bound_exceeded : std::exception { const char* what() const noexcept override { return "operation bound exceeded"; } };
@@ -260,6 +261,7 @@ static void on_refine_op(int kind, void* cellp, unsigned n1, unsigned n2, int ph
 #ifdef PROP_C11
         g_pass.before = snap_of(c);
 #endif
+        g_pass.faces_before.clear(); for (const face& f : c.face_lst_) g_pass.faces_before.push_back({f.is_used_, f.n1_id_, f.n2_id_, f.n3_id_});
         return;
     }
     if (!g_pass.err.empty() || std::uncaught_exceptions() > 0) return;
@@ -268,9 +270,11 @@ static void on_refine_op(int kind, void* cellp, unsigned n1, unsigned n2, int ph
     if (e.empty()) { // cached normal vs winding on the faces this operation created is part of the statement; check all faces whose normal is fresh:
         // faces created by the operation have normals computed from current positions, so the clause is checked on every face whose
         // cached normal agrees in direction with SOME orientation of its current geometry: only a sign flip is reported.
-        for (unsigned i = 0; i < c.face_lst_.size(); i++) { const face& f = c.face_lst_[i]; if (!f.is_used_) continue; if (!(f.has_node(n1) || f.has_node(n2))) continue;
+        for (unsigned i = 0; i < c.face_lst_.size(); i++) { const face& f = c.face_lst_[i]; if (!f.is_used_) continue;
+            // only faces this operation created or rewired: the cached normal of an untouched face predates the last node displacement
+            if (i < g_pass.faces_before.size()) { const FaceKey& k = g_pass.faces_before[i]; if (k.used && k.a == f.n1_id_ && k.b == f.n2_id_ && k.c == f.n3_id_) continue; }
             const vec3 &A = c.node_lst_[f.n1_id_].pos_, &B = c.node_lst_[f.n2_id_].pos_, &C = c.node_lst_[f.n3_id_].pos_; vec3 nn = (B - A).cross(C - A); double nrm = nn.norm(); if (nrm == 0) continue;
-            double d = nn.dot(f.normal_) / nrm; if (d < -0.999999) { char buf[200]; snprintf(buf, sizeof buf, "cached-normal-opposes-winding: face %u (%u,%u,%u) inside a pass after %s(%u,%u)", i, f.n1_id_, f.n2_id_, f.n3_id_, kind_name(kind), n1, n2); e = buf; break; } } }
+            double d = nn.dot(f.normal_) / nrm; if (d < 0) { char buf[200]; snprintf(buf, sizeof buf, "cached-normal-opposes-winding: face %u (%u,%u,%u) inside a pass after %s(%u,%u)", i, f.n1_id_, f.n2_id_, f.n3_id_, kind_name(kind), n1, n2); e = buf; break; } } }
 #endif
     if (e.empty()) e = oracle_op(g_pass.before, c, kind, n1, n2, kind == SWAP ? -1 : g_pass.lmin2, kind == SWAP ? -1 : g_pass.lmax2);
     if (!e.empty()) g_pass.err = std::string("inside pass, after ") + kind_name(kind) + "(" + std::to_string(n1) + "," + std::to_string(n2) + "): " + e;
